@@ -47,7 +47,7 @@ func meshCase(c *run.Ctx) run.Result {
 		case 0:
 			g := genQuat(r)
 			op = "Mesh.Rotate"
-			rot := quatMatrix(qOf(g.q))
+			rot := g.rotation()
 			for _, p := range cur {
 				want = append(want, rot.apply(p))
 				mags = append(mags, vnorm(p))
@@ -101,7 +101,7 @@ func meshCase(c *run.Ctx) run.Result {
 		case 5:
 			g := genQuat(r)
 			op = "meshops.RotateAttribute3D"
-			rot := quatMatrix(qOf(g.q))
+			rot := g.rotation()
 			for _, p := range cur {
 				want = append(want, rot.apply(p))
 				mags = append(mags, vnorm(p))
